@@ -468,7 +468,7 @@ func heapSortEnum(rep *core.Report) {
 					rep.Add("Heap.FromSlice/"+drainCls(msg), fmt.Sprintf("FromSlice(%v,%s): %s", cur, t.name, msg), fmt.Sprintf("FromSlice(%v,%s)", cur, t.name), nil)
 				}
 				// the same on a slice with spare capacity (an append-grown slice, a prefix of a buffer)
-				for _, spare := range []int{1, 5} {
+				for _, spare := range []int{1, 5, 70, 300} { // 70, 300: a short prefix of a large buffer (capacity thresholds of any shrinking policy)
 					in3 := make([]hE, len(cur), len(cur)+spare)
 					copy(in3, cur)
 					out := heap.Sort(in3, t.cmp)
